@@ -5,6 +5,7 @@ object x, then the REAL `assemble_soundevent` on the AOEF object it built, with 
 real constructors.  Sub-adapter calls are replaced by the DataAdapter base-class contract:
 
   B.to_aoef(e)   returns an AOEF object whose key is key_B(e) and REGISTERS e           (ghost: not-missing_B(key_B(e)))
+  B.get_id(e)    returns key_B(e) and registers nothing
   B.from_id(k)   returns None if missing_B(k), else the registered object with that key  (load-side hypothesis: the
                  objects of B were loaded before and are equal to the originals -- the induction hypothesis over the
                  adapter dependency DAG, established by the collection-level order obligations of props/aoef_flow.py)
@@ -142,8 +143,20 @@ def install_adapter_contracts(v, ex_bg):
                 return [(p, Opt(MISS(kt), Obj(TAG, {"term": term, "value": Str(t=TAG_VALUE(kt))})))]
             return [(p, Opt(MISS(k.t), Obj(dcls, {"uuid": Opq("UUID", k.t)})))]
 
+        def get_id(ex, p, args, kw, node, is_tag=is_tag):
+            """base-class contract of get_id: the key of the object; it does NOT put the object into the document
+            (only to_aoef fills the store that values() emits), so nothing is known about `missing` afterwards"""
+            selfv, e = args
+            if isinstance(e, Opt):
+                p = ex.implicit(p, e.isnone, "AttributeError", node)
+                e = e.val
+            if is_tag:
+                return [(p, Num(TAGID(e.fields["term"].fields["label"].t, e.fields["value"].t)))]
+            return [(p, Opq("UUID", e.fields["uuid"].t))]
+
         v.handlers[f"method:{acls}.to_aoef"] = to_aoef
         v.handlers[f"method:{acls}.from_id"] = from_id
+        v.handlers[f"method:{acls}.get_id"] = get_id
     return v
 
 
